@@ -4,6 +4,7 @@ import (
 	"bytes"
 	"encoding/binary"
 	"fmt"
+	"time"
 
 	"github.com/pion/rtp"
 
@@ -260,6 +261,10 @@ func c17AST(c *fw.Ctx, i int) {
 			return
 		}
 		d := rtp.AbsSendTimeExtension{Timestamp: ^v}
+		if lo&7 == 5 {
+			// a receiver that holds what a sender's constructor put there: the NTP time of a plausible instant, 50 bits wide
+			d = *rtp.NewAbsSendTimeExtension(time.Unix(int64(1_000_000_000+(lo*977+i*31)%1_000_000_000), int64(lo)*15259))
+		}
 		wire[3], wire[4] = byte(lo), 0xEE
 		if err := d.Unmarshal(wire[:3+(lo&1)*2]); err != nil || d.Timestamp != v {
 			c.Fail("C17/abssendtime/unmarshal-layout", fmt.Sprintf("Unmarshal(%s) = %#x err %v, want %#x", fw.Hex(wire[:3]), d.Timestamp, err, v), fw.W("timestamp", v))
